@@ -497,6 +497,11 @@ def _set_allocations_for_consumer(req, schema):
             'allocate: %(error)s' % {'error': exc},
             comment=errors.CONCURRENT_UPDATE)
 
+    # A consumer auto-created for this request that was given no
+    # allocations (an empty allocations object) must not be left behind.
+    if created_new_consumer and not allocation_data:
+        delete_consumers([consumer])
+
     req.response.status = 204
     req.response.content_type = None
     return req.response
@@ -609,6 +614,11 @@ def set_allocations(req):
             'Inventory and/or allocations changed while attempting to '
             'allocate: %(error)s' % {'error': exc},
             comment=errors.CONCURRENT_UPDATE)
+
+    # Consumers auto-created for this request that were given no
+    # allocations (an empty allocations object) must not be left behind.
+    delete_consumers([consumer for consumer in new_consumers_created
+                      if not data[consumer.uuid]['allocations']])
 
     req.response.status = 204
     req.response.content_type = None
